@@ -79,6 +79,28 @@ func c11Grammar(reps bool) *gen.Grammar {
 	return gen.NewGrammar(rules)
 }
 
+// c11PunctGrammar: string literals that spell punctuation tokens, in every position where the parser probes for that token.
+var c11PunctLits = []string{`":"`, `"]"`, `"#"`, `")"`, `"}"`, `","`, `"?"`, `"."`}
+
+func c11PunctGrammar() *gen.Grammar {
+	E := gen.TAny
+	op := func(t gen.Ty) gen.Slot { return gen.Slot{T: t, Operand: true, Closure: -1} }
+	rules := []*gen.Rule{gen.Lit("a", E, nil), {Op: "hash", Out: E, Atom: true, NeedElem: E, Fmt: "#"}}
+	for _, l := range c11PunctLits {
+		rules = append(rules, gen.Lit(l, E, nil))
+	}
+	rules = append(rules, gen.Bin("==", E, E, E), &gen.Rule{Op: "cond", Out: E, In: []gen.Slot{op(E), op(E), op(E)}, Fmt: "%s ? %s : %s"},
+		gen.Index(E, E, E), gen.Slice("ft", E), gen.Slice("f", E), gen.Slice("t", E),
+		gen.Method(E, "m", E, false, E), gen.Call("f", E, E), gen.Call("f", E, E, E),
+		&gen.Rule{Op: "builtin", Arg: "all", Out: E, Atom: true, In: []gen.Slot{{T: E, Closure: -1}, {T: E, Closure: 0}}, Fmt: "all(%s, {%s})"},
+		&gen.Rule{Op: "len", Out: E, Atom: true, In: []gen.Slot{{T: E, Closure: -1}}, Fmt: "len(%s)"},
+		&gen.Rule{Op: "arr", Out: E, Atom: true, In: []gen.Slot{{T: E, Closure: -1}, {T: E, Closure: -1}}, Fmt: "[%s, %s]"},
+		&gen.Rule{Op: "arr", Out: E, Atom: true, In: []gen.Slot{{T: E, Closure: -1}}, Fmt: "[%s]"},
+		&gen.Rule{Op: "map", Arg: "k", Out: E, Atom: true, In: []gen.Slot{{T: E, Closure: -1}}, Fmt: "{k: %s}"},
+	)
+	return gen.NewGrammar(rules)
+}
+
 // c11 inside closures '#' has type TAny: gen.Elem(TAny) must be TAny for the builtin rule.
 
 func c11Want(e *gen.Expr) string {
@@ -95,6 +117,9 @@ func c11Want(e *gen.Expr) string {
 			return `(str "s")`
 		case "true":
 			return "(bool true)"
+		}
+		if strings.HasPrefix(r.Arg, `"`) {
+			return "(str " + r.Arg + ")"
 		}
 	case "hash":
 		return "(ptr)"
@@ -268,9 +293,9 @@ func c11(r *report.Run) {
 		g    *gen.Grammar
 		maxN int
 	}
-	passes := []pass{{c11Grammar(false), 5}, {c11Grammar(true), 7}}
+	passes := []pass{{c11Grammar(false), 5}, {c11Grammar(true), 7}, {c11PunctGrammar(), 4}}
 	if r.Tier == "thorough" {
-		passes = []pass{{c11Grammar(false), 6}, {c11Grammar(true), 8}}
+		passes = []pass{{c11Grammar(false), 6}, {c11Grammar(true), 8}, {c11PunctGrammar(), 5}}
 	}
 	for _, ps := range passes {
 		g, maxN := ps.g, ps.maxN
@@ -313,7 +338,10 @@ func c11(r *report.Run) {
 					fmask[p] = true
 				}
 				texts := map[string]string{"min": min, "full": full, "redundant": c11Text(e, fmask)}
-				for _, ws := range []struct{ name, ws string }{{"tab", "\t"}, {"newline", "\n"}, {"mixed", " \n\t "}} {
+				for _, ws := range []struct{ name, ws string }{{"tab", "\t"}, {"newline", "\n"}, {"mixed", " \n\t "}, {"cr", "\r"}, {"crlf", "\r\n"}, {"formfeed", "\f"}, {"vtab", "\v"}, {"nbsp", "\u00a0"}, {"nel", "\u0085"}, {"linesep", "\u2028"}, {"ideographic", "\u3000"}} {
+					if r.Tier != "thorough" && e.Size() > 4 && (ws.name != "tab" && ws.name != "newline" && ws.name != "mixed") {
+						continue // the rarer blank characters: every tree of <= 4 nodes in the quick tier, every tree in the thorough tier
+					}
 					if t, ok := c11Relayout(min, ws.ws); ok {
 						texts["min+"+ws.name] = t
 					}
@@ -403,6 +431,81 @@ func c11(r *report.Run) {
 		order += int64(total)
 		lenDone = L
 	}
+	// (iii) one token inserted, deleted or doubled at every token boundary of every small tree: accept/reject and
+	// the tree must agree with the reference grammar
+	var edits int64
+	{
+		g := c11Grammar(false)
+		maxN := 3
+		if r.Tier == "thorough" {
+			maxN = 4
+		}
+		strays := []string{",", ")", "]", "}", ":", "a", "not", "?.", "(", "[", "..", "1", "-"}
+		for n := 1; n <= maxN; n++ {
+			if r.OutOfTime() {
+				r.Set("exhaustive", false)
+				break
+			}
+			sp := g.Space(top, n)
+			base := order
+			par.For(int(sp.Total), func(i int) {
+				e := sp.At(int64(i))
+				if !c11Usable(e) {
+					return
+				}
+				src := e.String()
+				toks, err := lexer.Lex(file.NewSource(src))
+				if err != nil {
+					return
+				}
+				rs := []rune(src)
+				var cuts []int
+				for _, t := range toks {
+					if t.Kind == lexer.EOF {
+						cuts = append(cuts, len(rs))
+					} else {
+						cuts = append(cuts, t.Column)
+					}
+				}
+				var variants []string
+				for k, c := range cuts {
+					for _, s := range strays {
+						variants = append(variants, string(rs[:c])+" "+s+" "+string(rs[c:]))
+					}
+					if k+1 < len(cuts) {
+						variants = append(variants, string(rs[:c])+" "+string(rs[cuts[k+1]:]))                                     // token k deleted
+						variants = append(variants, string(rs[:cuts[k+1]])+" "+string(rs[c:cuts[k+1]])+" "+string(rs[cuts[k+1]:])) // token k doubled
+					}
+				}
+				for _, bad := range variants {
+					want, perr, lerr := refparse.ParseString(bad)
+					if lerr != nil {
+						continue
+					}
+					got, err := realParse(bad)
+					atomic.AddInt64(&parses, 1)
+					atomic.AddInt64(&edits, 1)
+					kind := ""
+					switch {
+					case err != nil && strings.HasPrefix(err.Error(), "PANIC"):
+						kind = "panic"
+					case perr == nil && err != nil:
+						kind = "rejects-valid"
+					case perr != nil && err == nil:
+						kind = "accepts-invalid"
+					case perr == nil && got != want:
+						kind = "different-tree"
+					}
+					if kind != "" {
+						r.Report(report.Violation{Sub: "token-edit", Kind: kind, Witness: bad, Order: base + int64(i),
+							Detail: map[string]interface{}{"edited_from": src, "reference_tree": want, "parsed_tree": got, "error": fmt.Sprint(err), "reference_error": fmt.Sprint(perr)}})
+					}
+				}
+			})
+			order += sp.Total
+		}
+	}
+	r.Set("single_token_edits", edits)
 	r.Sample(map[string]interface{}{"token_sequence": "a ?. f ( 1 )", "reference": "accepts"})
 	r.Set("trees", trees)
 	r.Set("token_sequences", seqs)
